@@ -75,6 +75,29 @@ CHECKS = {
         note="Trusted: numpy eigvalsh. primme absent (direct + davidson only). Dense dimension <= 512.",
         technique="property-based testing (Hypothesis) against an exact-diagonalisation oracle (variational bound, interlacing)",
     ),
+    "C16": dict(
+        category="exploration",
+        text="Every basis class x every supported symbol x generated sizes/frequencies/origins/grids (a completely enumerated grid "
+             "of sizes x dvr x general_xp_power first) against defining relations computed by the harness: ladder matrices built at "
+             "a larger size and truncated, products in the written order, canonical commutator, DVR/shifted-origin consistency, "
+             "Gauss-Legendre quadrature of the sine basis functions, Pauli algebra, single-entry electron matrices; Holstein "
+             "(schemes 1-4, periodic, different ground/excited frequencies), spin-boson and translation-invariant builders against "
+             "Hamiltonians assembled from the documented physics, scheme equivalence on shared excitation sectors; Quantity units.",
+        design_ref="DESIGN.md §4 C16",
+        note="Trusted: harness ladder algebra, numpy quadrature, CODATA constants in the harness; dense models observed through Mpo.todense (C01).",
+        technique="property-based testing (Hypothesis) + enumerated grid against harness-computed defining relations and independent physics assembly",
+    ),
+    "C18": dict(
+        category="exploration",
+        text="Generated Hermitian matrices with structured spectra x dt phases x start vectors (generic, in/near invariant subspaces, "
+             "real start with complex A) x block sizes for expm_krylov against the dense eigendecomposition at the routine's own "
+             "stopping tolerance; generated coefficient arrays with arbitrary quantum-number label patterns (empty and one-sided "
+             "sectors, 1-2 components) for svd_qn (SVD/QR, both systems, full/economic), eigh_qn, select_basis and helpers against "
+             "numpy SVD/eigh of the masked matrix, orthonormality, label validity, global ordering and exact restoration.",
+        design_ref="DESIGN.md §4 C18",
+        note="Trusted: numpy/LAPACK eigh and svd. Krylov dimension <= 60 (quick) / 300 (thorough).",
+        technique="property-based testing (Hypothesis) with dense linear-algebra oracles (differential vs numpy/scipy)",
+    ),
     "C19": dict(
         category="exploration",
         text="Complete enumeration of the finite space (10 tableaux x rows x 17 rooted trees of order <=5, row sums, "
